@@ -207,7 +207,8 @@ Join(cs) == IF cs = <<>> THEN "" ELSE Head(cs) \o Join(Tail(cs))      \* a name 
    family: "full" | "red" (reduced alphabets for inner slots) *)
 Pats(d, pc, fam) ==
   {PSym(Join(pc))} \cup (IF d = 0 THEN {} ELSE UNION {Shape(k, d, pc, fam) : k \in 1..NShapes})
-OrIfSym(a) == IF a.p = "sym" THEN {<<>>, <<Or(a.n, Dflt(a.n))>>} ELSE {<<>>}
+(* a default may itself be falsey: (get m k false) is not (get m k) *)
+OrIfSym(a) == IF a.p = "sym" THEN {<<>>, <<Or(a.n, Dflt(a.n))>>, <<Or(a.n, Bo(FALSE))>>} ELSE {<<>>}
 Shape(k, d, pc, fam) ==
   LET full == fam = "full"
       pre == Join(pc)
@@ -350,7 +351,9 @@ OrExact == (Ready /\ pat.p = "map") =>
     \A nk \in DirectKeys(pat) :
       LET got == Lookup(row.r.env, nk[1]) IN
       IF HasOr(pat, nk[1])
-        THEN /\ (got = OrOf(pat, nk[1])) <=> ~HasKey(co.m, nk[2])
+        THEN /\ ~HasKey(co.m, nk[2]) => got = OrOf(pat, nk[1])
+             \* the converse needs a default that occurs in no value (the keyword defaults; not `false`)
+             /\ (OrOf(pat, nk[1]) # Bo(FALSE) /\ got = OrOf(pat, nk[1])) => ~HasKey(co.m, nk[2])
              /\ HasKey(co.m, nk[2]) => got = Get(co.m, nk[2], Nil)
         ELSE got = Get(co.m, nk[2], Nil)
 (* :as is the value itself (for a seq? value given to a map pattern: the map it was read as) *)
@@ -368,7 +371,7 @@ Leaves(p) ==
 ConformingBinds == Ready =>
   LET r == Bind(pat, Conf(pat)) IN r.st = "ok" /\ \A n \in Leaves(pat) : Lookup(r.env, n) = Wit(n)
 NilBindsNil == Ready =>
-  LET r == Bind(pat, Nil) IN r.st = "ok" /\ \A j \in 1..Len(r.env) : r.env[j].v \in {Nil, Dflt(r.env[j].n)}
+  LET r == Bind(pat, Nil) IN r.st = "ok" /\ \A j \in 1..Len(r.env) : r.env[j].v \in {Nil, Dflt(r.env[j].n), Bo(FALSE)}
 (* a number never destructures sequentially, unless the pattern asks for nothing *)
 NumberRaises == (Ready /\ pat.p = "vec") =>
   (Bind(pat, I(5)).st = "err" <=> (pat.items # <<>> \/ pat.rest # ""))
